@@ -3,7 +3,7 @@ lifecycles (X3)."""
 import asyncio
 
 from pyvc import *
-from pyvc.stubs import Opaque, NullLogger
+from pyvc.stubs import Opaque, NullLogger, STd
 from kopf._core.actions import execution
 
 EM = execution.ErrorsMode
@@ -100,7 +100,7 @@ def X1(vc):
     retries_so_far = vc.int('state.retries'); vc.assume(retries_so_far >= 0, 'recorded attempts are a count')
     runtime_s = vc.real('state.runtime')
     started = Opaque('started')
-    state = Opaque('state', retries=retries_so_far, started=started, runtime=Runtime(runtime_s))
+    state = Opaque('state', retries=retries_so_far, started=started, runtime=STd(runtime_s))
     cause = Opaque('cause', logger=NullLogger())
     settings = Opaque('settings', execution=Opaque('execution', default_backoff=default_backoff))
     lifecycle, extra_context = Opaque('lifecycle'), Opaque('extra_context')
